@@ -431,7 +431,9 @@ class PyramidIO(object):
         # one automagically.
         from filelock import SoftFileLock
 
-        p = self.tile_path(pos)
+        # The lock guards the file that is read and rewritten, so that updaters
+        # whose PyramidIO objects have different default formats still agree on it.
+        p = self.tile_path(pos, format=format or self._default_format)
 
         with SoftFileLock(p + ".lock"):
             img = self.read_image(
